@@ -155,6 +155,38 @@ def Env.boundsViolPos (e : Env) (i : Nat) : Rat :=
 
 /-! ## functional constraints: `ComputeValue` overloads of `constr_eval.h` (exact-arithmetic fragment) -/
 
+/-! ### piecewise-linear functions given by points (`PLPoints`, `ComputeValue(PLConstraint)`) -/
+
+/-- `PLPoints::PreSlope()` -/
+def plPre : List (Rat × Rat) → Rat
+  | (x0, y0) :: (x1, y1) :: _ => if x1 ≤ x0 then 0 else (y1 - y0) / (x1 - x0)
+  | _ => 0
+
+/-- `PLPoints::PostSlope()` (the last two points) -/
+def plPost (pts : List (Rat × Rat)) : Rat :=
+  match pts.reverse with
+  | (x1, y1) :: (x0, y0) :: _ => if x1 ≤ x0 then 0 else (y1 - y0) / (x1 - x0)
+  | _ => 0
+
+/-- the loop `for ( ; x0 > plp.x_[i0]; ++i0)` and the interpolation; `prev` is point `i0-1` -/
+def plScan : List (Rat × Rat) → Rat × Rat → Rat → Rat
+  | [], prev, _ => prev.2
+  | (xi, yi) :: t, prev, x =>
+    if xi < x then plScan t (xi, yi) x
+    else if xi = x then yi
+    else prev.2 + (yi - prev.2) * (x - prev.1) / (xi - prev.1)
+
+/-- `ComputeValue(const PLConstraint&, x)` at argument value `x` -/
+def plValue (pts : List (Rat × Rat)) (x : Rat) : Rat :=
+  match pts with
+  | [] => 0
+  | (x0, y0) :: _ =>
+    if x < x0 then y0 - plPre pts * (x0 - x)
+    else
+      match pts.reverse with
+      | (xl, yl) :: _ => if xl < x then yl + plPost pts * (x - xl) else plScan pts (x0, y0) x
+      | [] => 0
+
 inductive Func where
   | affine (b : Body)                 -- LinearFunctionalConstraint / QuadraticFunctionalConstraint
   | max (args : List Nat)
@@ -171,6 +203,7 @@ inductive Func where
   | numberofVar (v0 : Nat) (args : List Nat)
   | count (args : List Nat)
   | cond (c : AlgCon)                 -- ConditionalConstraint<Con>
+  | pl (pts : List (Rat × Rat)) (a : Nat)   -- PLConstraint (points form)
   deriving Repr, Inhabited
 
 def Func.vars : Func → List Nat
@@ -179,6 +212,7 @@ def Func.vars : Func → List Nat
   | .numberofConst _ a => a
   | .numberofVar v0 a => v0 :: a
   | .abs a | .not a => [a]
+  | .pl _ a => [a]
   | .div a b => [a, b]
   | .ifthen c t e | .impl c t e => [c, t, e]
   | .cond c => c.body.vars
@@ -206,6 +240,7 @@ def Func.finiteAt (f : Func) (x : Pt) : Bool :=
   match f with
   | .max a | .min a => !a.isEmpty
   | .div _ b => decide (x b ≠ 0)
+  | .pl pts _ => !pts.isEmpty
   | _ => true
 
 def Func.value (f : Func) (e : Env) : Rat :=
@@ -227,6 +262,7 @@ def Func.value (f : Func) (e : Env) : Rat :=
   | .numberofVar v0 a => ((a.filter (numberofHit e (e.x v0))).length : Nat)
   | .count a => (((a.map e.x).filter (fun v => decide ((1/2 : Rat) ≤ v))).length : Nat)
   | .cond c => b2r (c.isValid (c.body.val e.x))
+  | .pl pts a => plValue pts (e.x a)
 
 inductive Ctx where | none | pos | neg | mix
   deriving DecidableEq, Repr, Inhabited
@@ -493,7 +529,8 @@ def Model.funcsFiniteAt (m : Model) (x : Pt) : Bool :=
 
 /-- the run stays inside the modelled fragment (no ±INFINITY/NaN values, definitions ordered) -/
 def inFragment (m : Model) (o : Opts) (xs : List Rat) : Bool :=
-  m.ordered && recomputeFinite m o xs && m.funcsFiniteAt (ptOf (applyPrecision o xs))
+  (o.mode &&& 992 == 0 || (m.ordered && recomputeFinite m o xs)) &&     -- recomputation only runs with idealistic bits
+  m.funcsFiniteAt (ptOf (applyPrecision o xs))
 
 /-! ## one checking pass (`DoCheckSol`) -/
 
